@@ -166,7 +166,7 @@ SWEEP_VALS = ['"a"', "5", "0", "'()", "'(1 2)", "(vector 1)", "(box 3)", "2.5", 
               "9223372036854775807", "-9223372036854775808", "18446744073709551616", "(list #f 2)"]
 
 
-def jit_sweep(ck):
+def jit_sweep(ck, full=False):
     """Native tier against the interpreter on single operations with operands of every kind (mostly of the WRONG
     type): the functions live in a required module, where primitives compile to opcodes and, with the JIT on, to the
     native helpers of jit.rs; every call is made twice on a fresh engine.  Outcome (value or error / success) must
@@ -188,7 +188,7 @@ def jit_sweep(ck):
                 calls.append("(%s %s 1)" % (f, v))
                 calls.append("(%s 1 %s)" % (f, v))
                 calls.append("(%s %s 0)" % (f, v))
-    if ck.tier == "quick":
+    if ck.tier == "quick" and not full:
         calls = ck.rng.sample(calls, 320)
     cases = [['(require "%s")' % path, c, c] for c in calls]
     on = ck.eval_cases(cases, fresh=True, env={}, batch=20, timeout_per_batch=120)
@@ -280,6 +280,14 @@ def run(ck):
                       "each configuration runs in its own worker processes",
                       "native code generation itself (Cranelift output) is covered by differential execution only"]
     proved = ck.proof_stage(["c02"], ["c02/Properties_C02"], "c02/Pins_C02.v")
+    # native tier: table of helper call sites regenerated from the sources; obligation: every fallible site is checked
+    from checks import c02_jit
+    sites, facts = c02_jit.extract(common.REPO)
+    ck.translate("Gen_C02jit", c02_jit.coq_text(sites, facts))
+    jit_proved = ck.proof_stage(["c02"], ["c02/Properties_C02jit"], "c02/Pins_C02jit.v")
+    ck.cov["jit_call_sites"] = {"sites": len(sites), "fallible": sum(1 for x in sites if x["fallible"] is not False),
+                                "unchecked_fallible": [x for x in sites if x["fallible"] is not False and not x["checked"]]}
+    proved = proved and jit_proved
     ck.harness_build(["evalsrv"])
     g = lang.Gen(ck.rng)
     nh, np_ = (16, 24) if ck.tier == "quick" else (300, 500)
@@ -337,7 +345,7 @@ def run(ck):
                                  case, tag="mod")
     ck.cov["module_programs"] = len(mods)
     # ---- native tier vs interpreter on single operations, operands of every kind
-    jit_sweep(ck)
+    jit_sweep(ck, full=not jit_proved)
     for h, m in list(zip(items, model))[:3]:
         ck.sample({"history": [lang.unit_to_steel(u) for u in h][:3], "reference": m[:300]})
     ck.cov["distinct_nontrivial"] = len(nontrivial)
